@@ -58,6 +58,7 @@ def run(ctx):
     ck.rule("R16c", "the decoders (and the interpreter) are recursion-free")
     ck.rule("R16d", "every routine that consumes an atom body fails on a short read")
     ck.rule("R16e", "explicit panic sites in the decoders are audited")
+    ck.rule("R16g", "every index, slice range and division reachable from the classic decoders is in bounds: proved from the code's own conditions, or by a listed invariant")
     ck.rule("R16f", "every test against MAX_SINGLE_BYTE is the same test (byte <= 0x7f, or its negation byte > 0x7f)")
     ck.assume("equal consumption and equal trees across decoders are value properties not decided here")
 
@@ -214,6 +215,12 @@ def run(ctx):
             ck.ob("R16f", f"{p}|{show(e)[:60]}", ok, "a byte is a single-byte atom iff byte <= MAX_SINGLE_BYTE (0x7f itself included)",
                   site=f.where(b), detail=show(e)[:120])
     ck.floor("tests against MAX_SINGLE_BYTE", n_sb, 7)
+
+    # ---- R16g: no out-of-bounds panic on any byte string (the in-bounds verifier of C25 over the decoders)
+    from rules import c25
+    fns = c25.reach_fns(cr, [p for p in DECODERS if p in cr.fns])
+    counts, n_sites = c25.check_bounds(ck, cr, "R16g", fns)
+    ck.floor("decoder indexing sites", n_sites, 30)
 
     # ---- R16e
     allp = {}
